@@ -56,6 +56,9 @@ class I2CElement(MemoryElement):
                      self.elements['roll_trim']] = struct.unpack('<BBBff',
                                                                  data[4:15])
                     if self.elements['version'] == 0:
+                        # A version 0 image has no radio address, do not keep
+                        # the one of an image that was read earlier
+                        self.elements.pop('radio_address', None)
                         done = True
                     elif self.elements['version'] == 1:
                         self.datav0 = data
